@@ -170,10 +170,10 @@ def build_robot(spec):
             body["setup"] = setup
         base_body = {}
         for r in c.get("resets", ()):
-            (base_body if r.get("inherited") else body)[r["attr"]] = will_reset_to(r["default"])
+            (base_body if r.get("inherited") else body)[r["attr"]] = will_reset_to(rt.resolve(r["default"]))
             if "base_default" in r and not r.get("inherited"):
                 # the subclass re-declares a marker it inherits, with another default: the subclass's one counts
-                base_body[r["attr"]] = will_reset_to(r["base_default"])
+                base_body[r["attr"]] = will_reset_to(rt.resolve(r["base_default"]))
         for s in c.get("sentinels", ()):
             if "shadowed_marker_default" in s:
                 # an inherited marker shadowed by a plain attribute of the subclass: no longer a reset attribute
@@ -187,6 +187,21 @@ def build_robot(spec):
                 f.__annotations__ = {"return": h}
             body[fb["name"]] = feedback(f) if fb.get("key") is None else feedback(key=fb["key"])(f)
         bases = (type("B_" + cname, (), base_body),) if base_body else ()
+        if c.get("is_sm"):
+            # a magicbot.StateMachine used as a component: the framework's own execute/on_enable/on_disable run after ours
+            from magicbot.state_machine import StateMachine, state as sm_state
+
+            def _s0(self):
+                pass
+            _s0.__name__ = "idle_state"
+            body["idle_state"] = sm_state(first=True)(_s0)
+            for hook in ("execute", "on_enable", "on_disable"):
+                def h(self, _hook=hook, _site=f"{cname}.{hook}"):
+                    rt.cb(_site)
+                    getattr(StateMachine, _hook)(self)
+                h.__name__ = hook
+                body[hook] = h
+            bases = bases + (StateMachine,)
         comp_classes[cname] = type("C_" + cname, bases, body)
     for cname, c in spec["components"].items():
         if c.get("same_class_as"):
